@@ -69,6 +69,52 @@ def run_equiv(ck, tier, K=2):
             ck.sample({'cmd': cmd, 'paths': len(res)})
 
 
+def run_history_equiv(ck, tier):
+    """the same k-command history on the plain store and behind the eviction layer, with the limit out of reach even if every
+    byte ever sent were kept and counted twice: identical responses at every step (in-solver, both systems composed from the
+    path summaries of the real code; the witness history is replayed natively under both policies)"""
+    from . import bmc
+    from mirse.models.bytesm import vlen, visnum
+    from .store_common import CMD_ID
+    L = PC.L
+    k = 4 if tier == 'quick' else 5
+    cmds = ['set', 'get', 'delete', 'flush'] if tier == 'quick' else ['set', 'get', 'delete', 'flush', 'append', 'add']
+
+    def extra(cmd, inp):
+        return PC.handler_constraints(cmd, inp) + [z3.Not(visnum(inp.val)), z3.ULE(vlen(inp.val), 4096)]
+    A = bmc.System(ck, 1, cmds, extra_assume=extra)
+    ck.E.loop_bound = 6
+    B = bmc.System(ck, 1, cmds, policy='random', memory_limit=L, extra_assume=lambda c, i: extra(c, i) + [z3.ULT(L, 1 << 40)])
+    trA, csA = A.unroll(k, tag='')
+    trB, csB = B.unroll(k, tag='~p')
+    cs = csA + csB
+    sent = BV(0)
+    for t in range(k):
+        cs.append(trA.S[t].now == trB.S[t].now)
+        sent = sent + BV(24) + vlen(trA.I[t].val)
+    cs.append(trA.S[k].now == trB.S[k].now)
+    cs.append(z3.ULE(2 * sent, L))
+    differ = []
+    for t in range(k):
+        d = trA.rkind[t] != trB.rkind[t]
+        d = z3.Or(d, z3.And(trA.cmd[t] == CMD_ID['get'], trA.rkind[t] == 0, z3.Or(trA.rval[t] != trB.rval[t], trA.rcas[t] != trB.rcas[t])))
+        differ.append(d)
+
+    def on_w(m, where):
+        ra, da, sa, oa = A.replay(m, trA)
+        rb, db, sb, ob = B.replay(m, trB)
+        if oa is None or ob is None:
+            return None, 'cannot replay the history', [sa, sb]
+        xa = [x.get('response', x.get('panic')) for x in oa['steps'][:k]]
+        xb = [x.get('response', x.get('panic')) for x in ob['steps'][:k]]
+        desc = f"limit {mval(m, L)} (never reached): {da} | responses with --eviction-policy none {xa} / random {xb}"
+        return (True if xa != xb else None), desc, [sa, sb]
+    small = [z3.ULE(L, 1 << 16), z3.ULE(trA.S[0].now, 100)] + [z3.ULE(vlen(trA.I[t].val), 16) for t in range(k)]
+    ck.bounds['history equivalence'] = f'{k} commands from {cmds} on 1 key, same inputs and clock on both systems, 2 x bytes sent <= limit'
+    ck.cover('history equivalence: both systems run', cs)
+    ck.obligation(f'bmc-k{k}: same responses with and without the eviction layer while the limit is out of reach', cs, z3.Not(z3.Or(differ)), {}, on_w, small)
+
+
 def run(tier, seed, replay_path=None):
     ck = Check('C20', tier, seed)
     if replay_path:
@@ -77,6 +123,7 @@ def run(tier, seed, replay_path=None):
     ck.bounds.update({'policy equivalence': 'one command from an arbitrary well-formed state, 2 keys, limit - usage >= 2^33'})
     ck.assumptions += ['library models of DESIGN 3.3', 'tokio runtime constructors, thread spawning and sockets are models (runtime_checks.py)']
     run_equiv(ck, tier)
+    run_history_equiv(ck, tier)
     from . import runtime_checks
     runtime_checks.run_plumbing(ck, tier)
     return ck.finish()
